@@ -149,7 +149,90 @@ def run(check, mirror, tier):
                      ("contexts are equivalent iff same keys and equivalent entries", z3.And(r[5] == z3.And(r[6], r[7]), z3.Not(r[8])))],
        budget=1500)
 
+    # 5. coercion: coerced(T, v) is v, [v], v[0] or null; it conforms to T or is null; coercing again changes nothing -------------
+    U = fv.Universe(mirror)
+
+    def coercion_job(vkinds, tag):
+        def setup(ex, st):
+            T = TU.fresh(ex, st, 1, "T", 1, 1)
+            v = U.fresh(ex, st, 1, "v", kinds=vkinds, list_len=2, ctx_len=1, others=False)
+            tref = Ref(ex.new_cell(st, T, "T"))
+            vref = Ref(ex.new_cell(st, v, "v"))
+            inputs = {"_T": T, "_v": v, "_st": st, "_ex": ex}
+
+            def classify(ex, st, r):
+                r = deref(ex, st, r)
+                if r is v:
+                    return "same", r
+                if isinstance(r, En) and ex.concrete(r.disc) == U.idx("Null"):
+                    return "null", r
+                if isinstance(r, En) and ex.concrete(r.disc) == U.idx("List"):
+                    vec = r.alts["List"][0].fields[0]
+                    if ex.concrete(vec.len) == 1 and deref(ex, st, vec.items[0]) is v:
+                        return "wrapped", r
+                if "List" in v.alts:
+                    items = v.alts["List"][0].fields[0].items
+                    if items and r is items[0]:
+                        return "unwrapped", r
+                return "other", r
+
+            def runner(ex, st):
+                body_t = ex.resolve("Value::type_of")
+                for o1 in ex.run("FeelType::coerced", [tref, vref], st):
+                    if o1.kind != "return":
+                        yield o1
+                        continue
+                    kind1, r = classify(ex, o1.st, o1.value)
+                    rref = Ref(ex.new_cell(o1.st, r, "r"))
+                    # type of the result, its conformance to T
+                    ot = ex._merged_call(o1.st, body_t, [rref])
+                    if ot is None:
+                        raise MirUnsupported("type_of could not be summarised")
+                    oc = ex._merged_call(o1.st, ex.resolve("FeelType::is_conformant"), [Ref(ex.new_cell(o1.st, ot.value, "tr")), tref])
+                    if oc is None:
+                        raise MirUnsupported("is_conformant could not be summarised")
+                    for o2 in ex.run("FeelType::coerced", [tref, rref], o1.st):
+                        if o2.kind != "return":
+                            yield o2
+                            continue
+                        r2 = deref(ex, o2.st, o2.value)
+                        same2 = (r2 is r) or (kind1 == "null" and isinstance(r2, En) and ex.concrete(r2.disc) == U.idx("Null"))
+                        yield Outcome("return", o2.st, value=(kind1, oc.value.e, same2))
+            return runner, None, inputs
+
+        def post(ex, o, inputs):
+            kind1, conforms, same2 = o.value
+            v = inputs["_v"]
+            props = [("coercion returns the value itself, a singleton wrap, a singleton unwrap or null", z3.BoolVal(kind1 in ("same", "null", "wrapped", "unwrapped")))]
+            if kind1 == "unwrapped":
+                props.append(("only a singleton list is unwrapped", v.alts["List"][0].fields[0].len == 1))
+            if kind1 != "null":
+                props.append(("the coerced value conforms to the target type", conforms))
+            props.append(("coercing twice changes nothing", z3.BoolVal(bool(same2))))
+            return props
+
+        def desc(m, inputs):
+            return {"T": TU.describe(inputs["_ex"], inputs["_st"], m, inputs["_T"], model_value), "v": U.describe(m, inputs["_v"], model_value)}
+        jobs.append(lambda c: decide(c, crate, "coercion/%s" % tag, setup, post, replay_coercion, rb, models=MODELS, unwind=10, describe=desc,
+                                     budget_s=1500, min_paths=3, timeout_ms=20000, known_predicates=KNOWN_PRED, merge=r"::(is_equivalent|is_conformant|type_of)$",
+                                     prefer=lambda inp: U.replayable_pref(inp["_v"])))
+    from mir.models import deref
+    coercion_job(["Number", "String", "Boolean", "Null"], "scalars")
+    coercion_job(["List"], "lists")
+    coercion_job(["Context"], "contexts")
     run_parallel(check, jobs)
+
+
+def replay_coercion(i, rb):
+    if not fv.replayable(i["v"]):
+        return False, "value not expressible"
+    _, out, _ = replay_call(rb, ["coerce", i["T"], fv.feel_text(i["v"])])
+    m = re.search(r"null=(\w+) conforms=(\w+) idempotent=(\w+)", out)
+    if not m:
+        return False, "replay output not understood: %s" % out[:200]
+    isnull, conforms, idem = [x == "true" for x in m.groups()]
+    bad = (not isnull and not conforms) or not idem
+    return bad, "coerce %s to %s -> %s" % (fv.feel_text(i["v"]), i["T"], out[:200])
 
 
 def replay_types(oid, i, rb):
